@@ -68,7 +68,7 @@ def mutants_for(lines, a, b, limit):
         code = ln.split('//@@')[0]
         # statements with no effect on the emitted machine code are not mutated: Code::COMMENT pushes
         # (possibly spanning lines) and Vec::with_capacity hints
-        if 'Code::COMMENT(' in code or 'Code::COMMENT {' in code:
+        if re.search(r'\bCOMMENT\s*[({]', code):
             in_comment_stmt = True
         if in_comment_stmt:
             if code.rstrip().endswith(';'):
